@@ -29,7 +29,7 @@ theorem alignment (c : Cfg) (items : List Item) (orc : List Bool) (hwf : ∀ it 
   have h := runFrom_spec c items 0 (init c orc) hi.1 hi.2 hwf
   refine ⟨h.len, ?_⟩
   intro j r hj
-  obtain ⟨it, h1, h2, h3, _, _⟩ := h.ok j r hj
+  obtain ⟨it, h1, h2, h3, _, _, _⟩ := h.ok j r hj
   exact ⟨it, h1, h2, by simpa using h3⟩
 
 /-- "a failed item yields an empty result instead of an exception or a hang": no interaction hangs and none
@@ -45,7 +45,7 @@ theorem failed_item_empty_no_exception (c : Cfg) (items : List Item) (orc : List
   have h := runFrom_spec c items 0 (init c orc) hi.1 hi.2 hwf
   refine ⟨fun j e hj => (h.err j e hj).1, ?_⟩
   intro j r it hj hit hor
-  obtain ⟨it', h1, _, _, _, h5⟩ := h.ok j r hj
+  obtain ⟨it', h1, _, _, _, h5, _⟩ := h.ok j r hj
   rw [hit] at h1; injection h1 with h1; subst h1
   exact (h5 hor).2
 
@@ -65,6 +65,30 @@ theorem default_protocol_always_responds (c : Cfg) (items : List Item) (orc : Li
       rw [List.getElem?_eq_getElem hj, hje]
     have he := (h.err j e hj').2
     rw [hd] at he; cases he
+
+/-- "any results in a response are the results the processor produced for that very input" read as
+COMPLETE lines (F54, repaired in ab63037): with the default (non-tsdb) protocol every line that a response is
+built from — results, notes, surface — was written by the processor for that very input (`alignment`) AND ends
+in a newline, whatever the answer text and wherever the exit cut it; and when no complete, non-empty content
+line was written for the input, the response has no results ("a failed item yields an empty result"). -/
+theorem default_results_from_complete_lines (c : Cfg) (items : List Item) (orc : List Bool)
+    (hwf : ∀ it ∈ items, WF c it) (hd : usesTsdb c = false)
+    (j : Nat) (r : Resp) (it : Item) (hj : (run c items orc).resps[j]? = some (Except.ok r))
+    (hit : items[j]? = some it) :
+    (∀ ow ∈ r.src, ow = some j) ∧ (∀ b ∈ r.srcNl, b = true) ∧ (completeContent it = [] → r.isEmpty = true) := by
+  have h0 := init_spec c orc
+  obtain ⟨it', h1, _, h3, _, _, h6⟩ := (runFrom_spec c items 0 (init c orc) h0.1 h0.2 hwf).ok j r hj
+  rw [hit] at h1; injection h1 with h1; subst h1
+  exact ⟨by simpa using h3, (h6 hd).1, (h6 hd).2⟩
+
+/-- the cut fragment really is dropped: a parser (default protocol) whose processor writes one complete
+result line and then `NO` without a newline before it exits reports exactly that one result -/
+theorem fragment_dropped :
+    let c : Cfg := { front := .parser, tsdb := false }
+    let it : Item := { text := "b".toList, out := [{ full := 5, payload := 5 }, { full := 6, payload := 6, nl := false }],
+                       die := some { code := 1, pol := .race, closeStdin := false } }
+    ((run c [it] []).resps.map (fun o => match o with
+        | .ok r => (match r.results with | .lines xs => xs | _ => [99]) | .error _ => [98])) = [[5]] := by decide
 
 /-- "After a failure later inputs are served by a restarted processor with a new run record": if interaction
 `i` saw the processor's output end (`eof`), every later input that is sent (not skipped) is answered under a
@@ -89,7 +113,7 @@ theorem skipped_iff_refused (c : Cfg) (items : List Item) (orc : List Bool) (hwf
     (j : Nat) (r : Resp) (it : Item) (hj : (run c items orc).resps[j]? = some (Except.ok r))
     (hit : items[j]? = some it) : r.skipped = true ↔ validate c.front it.text = none := by
   have h0 := init_spec c orc
-  obtain ⟨it', h1, _, _, h4, _⟩ := (runFrom_spec c items 0 (init c orc) h0.1 h0.2 hwf).ok j r hj
+  obtain ⟨it', h1, _, _, h4, _, _⟩ := (runFrom_spec c items 0 (init c orc) h0.1 h0.2 hwf).ok j r hj
   rw [hit] at h1; injection h1 with h1; subst h1
   exact h4
 
@@ -198,15 +222,17 @@ obligation and then searches for a failing input.  Which definition mirrors what
   `tsdbinfo=False`), `Cfg` defaults, the options the stand-in is started with, its `-V` answer;
 * `c19OpenConsts`: `openProc` / `Run` (one record per `_open`, key `run-id`); `c19CloseConsts`: `closeProc`
   (`end`), run notes drained;
-* `c19ResultLinesConsts`, `c19ReadRunInfoConsts`, `c19TerminiPatterns`: `readLines`, `Line.runNote`,
-  `Line.hits`, `applyNotes`, the `Terminus` classification;
+* `c19ResultLinesConsts`, `c19ReadRunInfoConsts`, `c19TerminiPatterns`: `readLines` (incl. the `\n` test behind
+  `Line.nl`; `partial` defaults to `False`, see `c19InitDefaults`), `Line.runNote`, `Line.hits`, `applyNotes`, the
+  `Terminus` classification;
 * `c19SendConsts`: `wire` (one line per input); `c19InteractConsts`: the skipped response of `interact`
   (refusal note, `SKIP: `), `Resp.input`; `c19ProcessItemConsts`: oracle clauses on `keys`/`task`;
 * `c19ValidateNames`, `c19PossibleMrsConsts`: `validate`, `strip`, `pmScan`, `possibleMrs` (brackets `[` `]`);
 * `c19MakeResponseConsts`: `Cls`, `baseResp` (prefixes and their lengths 6/9/7, the keys they feed);
 * `c19ParserReceiveConsts`, `c19TransfererReceiveConsts`, `c19GeneratorReceiveConsts`: `decode` (default
   protocol), `genResults` (`DTREE = ` 8, `MRS = ` 6, the two option names), harness `_line_result`;
-* `c19TsdbReceiveConsts`, `c19GeneratorTsdbReceiveConsts`: lines joined by one blank (`decode` flattens tokens),
+* `c19TsdbReceiveConsts`, `c19GeneratorTsdbReceiveConsts`: both tsdb readers pass `partial=True` (`resultLines`
+  reads with `part := usesTsdb c`), lines joined by one blank (`decode` flattens tokens),
   `generatorTsdbTermini`;
 * `c19SexprDataConsts`, `c19TsdbResponseConsts`: `sexprData` (`(`, the `:error` pair, length 2), `tsdbFold`,
   `kPInput`…`kSurface`, `fixSurface`;
@@ -218,7 +244,7 @@ theorem c19_pins :
       ["ace", "(0, 9, 14)", "--tsdb-notes", "(0, 9, 24)", "--tsdb-stdout", "--report-labels", "--itsdb-forest", "-1"]
     ∧
     c19InitDefaults =
-      ["(None, None, None, True, False, None)", "(None, None, None, True, False, None)", "(None, None, None, None)", "(None, None, None, True, None)", "(None)", "(None)"]
+      ["(None, None, None, True, False, None)", "(None, None, None, True, False, None)", "(None, None, None, None)", "(None, None, None, True, None)", "(None, False)", "(None)"]
     ∧
     c19TransfererInitConsts =
       ["False", "(cmdargs, executable, env, tsdbinfo, full_forest, stderr)"]
@@ -230,7 +256,7 @@ theorem c19_pins :
       ["-g", "True", "(stdin, stdout, stderr, env, universal_newlines)", "1", "ACE {} via PyDelphin v{}", ".", " ", "(run-id, application, environment, user, host, os, start)", "0"]
     ∧
     c19ResultLinesConsts =
-      ["0", "", "NOTE: tsdb run:", "1"]
+      ["0", "", "NOTE: tsdb run:", "\n", "1"]
     ∧
     c19ReadRunInfoConsts =
       ["NOTE: tsdb run:", "15", ":application", ":"]
@@ -239,7 +265,7 @@ theorem c19_pins :
       ["\n"]
     ∧
     c19TsdbReceiveConsts =
-      [" "]
+      ["True", "(partial)", " "]
     ∧
     c19InteractConsts =
       ["NOTE: PyDelphin could not validate the input and refused to send it to ACE", "SKIP: ", "input"]
@@ -263,7 +289,7 @@ theorem c19_pins :
       ["--show-realization-trees", "--show-realization-mrses", "0", "SENT", "1", "DTREE = ", "8", "derivation", "MRS = ", "6", "mrs", "results"]
     ∧
     c19GeneratorTsdbReceiveConsts =
-      ["\\(:results \\.", "(termini)", " "]
+      ["\\(:results \\.", "True", "(termini, partial)", " "]
     ∧
     c19AceVersionConsts =
       ["(0, 9, 0)", "-V", "True", "(universal_newlines)", "ACE version ([.0-9]+)", "1", "."]
